@@ -108,5 +108,18 @@ pub fn run(ctx: &mut Ctx) {
             let raw_api = ctx.rng.chance(1, 2);
             level_change_case(ctx, &cfg, &a, &b, flush1, new_level, raw_api);
         } }
+        // the same with redundancy INSIDE the window the compressor was created with (so that the new
+        // level really emits the matches), every non-default strategy at creation, windows up to 15
+        for wb in 10..=15u8 { for strategy in [1u8, 2, 3, 4] { for &flush1 in &[2u8, 3] {
+            if ctx.quick() && (wb as usize + strategy as usize + flush1 as usize + rep) % 2 == 1 { continue; }
+            let cfg = Cfg { level: ctx.rng.range(0, 10) as u8, strategy, zlib: true, wb };
+            let na = ctx.rng.range(1, 400);
+            let a = ctx.rng.bytes(na);
+            let n = ctx.rng.range(300, ((1usize << wb) - 300).min(30000));
+            let mut b = ctx.rng.bytes(n); let head = b[..300.min(n)].to_vec(); b.extend_from_slice(&head);
+            let new_level = *ctx.rng.pick(&[1u8, 1, 6, 9]);
+            let raw_api = ctx.rng.chance(2, 3);
+            level_change_case(ctx, &cfg, &a, &b, flush1, new_level, raw_api);
+        } } }
     }
 }
